@@ -13,6 +13,7 @@ VERDICT = "c14_verdict"
 EXPECTED = None
 SHARD = 4
 HARNESS_TIMEOUT = {"quick": 900, "thorough": 3000}
+CONFIRM = True          # a child that times out on a loaded machine must do so again when the case runs on its own
 RULE = ("one sub-case = one relay in a child process (real table, admin TCP interface, plain TCP/UDP and pickle listeners, routes into a loopback "
         "sink): a TOML configuration and/or admin commands written to the admin port (grammar-generated with every numeric option at 0 / 1 / "
         "2^32 / 2^64-1 / out of range, documented examples mutated token by token, truncated and over-long commands, binary junk), then metric "
@@ -127,8 +128,8 @@ def hostile_pickles(rng):
     ok = pickle.dumps([("foo.a", (NOW, 1.5)), ("foo.b", (NOW, 2))], protocol=2)
     fr = lambda p: struct.pack(">I", len(p)) + p
     out.append(fr(ok))
-    out.append(fr(b"\x80\x02]q\x00(T\xff\xff\xff\xff"))                 # BINSTRING claiming 4 GB
-    out.append(fr(b"\x80\x02]q\x00(X\xff\xff\xff\x7f"))                 # BINUNICODE claiming 2 GB
+    out.append(fr(b"\x80\x02]q\x00(T\x00\x00\x10\x00"))                 # BINSTRING claiming 1 MB
+    out.append(fr(b"\x80\x02]q\x00(X\xff\xff\xff\x7f"))                 # BINUNICODE claiming 2 GB (read byte by byte: no allocation)
     out.append(fr(b"\x80\x02]" + b"(" * 5000 + b"."))                   # marks only
     out.append(fr(b"\x80\x02]" + b"2" * 20000 + b"."))                   # DUP storm
     out.append(fr(b"\x80\x02]q\x00h\x07."))                              # memo miss
@@ -248,10 +249,22 @@ def gen_subs(rng, tier):
     return subs
 
 
+PREALLOC = struct.pack(">I", 11) + b"\x80\x02]q\x00(T\xff\xff\xff\xff"       # a 15-byte frame: BINSTRING claiming 4 GB
+
+
 def gen(rng, tier):
     subs = gen_subs(rng, tier)
     k = 24
-    return [{"subs": subs[i:i + k]} for i in range(0, len(subs), k)]
+    cases = [{"subs": subs[i:i + k]} for i in range(0, len(subs), k)]
+    # the recorded finding, in a case of its own: under a 3 GB address-space limit the hostile frame kills the relay
+    # (og-rek allocates the claimed length before reading); the same limit with ordinary traffic does not
+    S = lambda **kw: dict({"toml": "", "cmds": [], "lines": [], "inputs": [], "dels": [], "wait_ms": 400}, **kw)
+    ok = pickle.dumps([("foo.a", (NOW, 1.5))], protocol=2)
+    cases.append({"known": "pickle-prealloc", "subs": [
+        S(rlimit_kb=3000000, inputs=[{"kind": "pickle_tcp", "b": PREALLOC.hex()}]),
+        S(rlimit_kb=3000000, cmds=["addRoute sendAllMatch r1 prefix=foo  @SINK@"], lines=lines_for("foo"),
+          inputs=[{"kind": "pickle_tcp", "b": (struct.pack(">I", len(ok)) + ok).hex()}])]})
+    return cases
 
 
 # ---- what the model is told: the numeric parameters of the commands it knows ----
@@ -381,6 +394,10 @@ def coverage_extra(cases, obss):
 def signature(case, obs, code, err):
     if err:
         return "C14:harness-error:" + err[:60]
+    if case.get("known") == "pickle-prealloc":
+        r0, r1 = obs["subs"]
+        if crashed(r0) and "out of memory" in (r0.get("stderr") or "") and "loadBinString" in (r0.get("stderr") or "") and not crashed(r1):
+            return "C14:known:pickle-prealloc"       # exactly the recorded defect, nothing else
     for s, r in zip(case["subs"], obs["subs"]):
         if crashed(r):
             return "C14:crash:" + panic_site(r)
@@ -388,6 +405,8 @@ def signature(case, obs, code, err):
 
 
 def shrink(case):
+    if case.get("known"):
+        return
     for s in case["subs"]:
         yield {"subs": [s]}
 
